@@ -268,10 +268,42 @@ def _msg(call: ast.Call) -> str:
     return ""
 
 
+def check_error_classes(model: Model, report: Report, rule: str) -> None:
+    """Every JSONPathError subclass keeps the token it is constructed with (so a position can be printed)."""
+    base = model.cls("exceptions.JSONPathError")
+    for ci in model.subclasses(base, strict=False):
+
+        def body(it: Interp, ci=ci) -> Any:
+            tok = make_token(it, model, "ERROR", label="tok")
+            e = it.instantiate(ci, [Const("message")], {"token": tok}, None)
+            return e, tok
+
+        key = f"error-class:{ci.name}:keeps-token"
+        try:
+            runs = paths(model, body)
+        except Unsupported as err:
+            report.undecided(rule, ci.qualname, f"{key}: {err}")
+            continue
+        bad = None
+        for run in runs:
+            if run.kind == "raise":
+                bad = f"{ci.name}(message, token=...) raises {run.exc_name()}"
+                continue
+            e, tok = run.value
+            if e.attrs.get("token") is not tok:
+                bad = f"{ci.name}(message, token=t) leaves error.token = {describe(e.attrs.get('token'))!r}: the error has no offset and str(error) prints no line/column"
+        init = ci.find_method("__init__")
+        if bad:
+            report.fail(rule, ci.qualname, key, bad, file=init.file if init else "", line=init.line if init else 0)
+        else:
+            report.ok(rule, ci.qualname, key)
+
+
 def check(model: Model, report: Report) -> None:
     report.rule("R19.1", "Token.position(): line = 1 + number of LF in query[0:index], column = index - (offset of the last LF before index) - 1, both read from the QUERY text")
     report.rule("R19.2", "every Token built by the lexer carries an offset of the query (pos/start or a recorded bracket offset), the query itself, and text cut from the query at that offset")
     report.rule("R19.3", "every compile-time raise of a JSONPathError subclass passes the token by keyword")
+    report.rule("R19.5", "every JSONPathError subclass stores the token it is constructed with")
     report.rule("R19.4", "str(error) appends the (line, column) pair of position() unchanged")
     report.assumptions += ["A1: str.count/rfind with (sub, start, end) semantics; line breaks are LF"]
     report.not_decided += ["that the token chosen for an error is the most helpful one; only that its offset lies in the query and is rendered faithfully"]
@@ -279,4 +311,5 @@ def check(model: Model, report: Report) -> None:
     check_token_sites(model, report, "R19.2")
     check_raise_sites(model, report, "R19.3")
     check_str(model, report, "R19.4")
+    check_error_classes(model, report, "R19.5")
     report.extra["explanation"] = "C19: position formula compared as linear forms over text-scan terms whose receiver/bounds must be the query and [0,index); constructor-site and raise-site rules over the AST."
